@@ -35,7 +35,9 @@ BASE = dict(style_density=(0, 4), max_nodes=30, fanout=3, br_styles=False, anim_
             time_shifts=[Fraction(0), Fraction(0), Fraction(0), Fraction(59), Fraction(3599), Fraction(86399), Fraction(359990)])
 STYLED = gen_model.profile(arbitrary_times=False, **BASE)
 MARKUP = gen_model.profile(arbitrary_times=False, text_markup=True, **dict(BASE, max_nodes=16, ruby=False))
-SUBMS = gen_model.profile(arbitrary_times=True, **dict(BASE, max_nodes=14, time_density=3))
+SUBMS = gen_model.profile(arbitrary_times=True, **dict(BASE, max_nodes=14, time_density=3,
+                                                      time_shifts=[Fraction(0), Fraction(0), Fraction(0), 60 - Fraction(1, 3000),
+                                                                   3600 - Fraction(1, 4000), 120 - Fraction(9, 20000)]))
 CR = gen_model.profile(arbitrary_times=False, **dict(BASE, xml_safe=False, max_nodes=16, time_shifts=None))
 SHRINK = gen_model.case_simplifications("spec")
 MARKUP_CHARS = re.compile(r"[&<>{}]|-->")
